@@ -95,9 +95,9 @@ def parse_operand(tok, var, vec_names, scalar_names):
     raise TranslateError("operand outside the grammar: %r" % tok)
 
 
-def loop_term(lo, himinus, dst, inplace, args, by_ref=False):
-    return "{ lo := %s, hiMinus := %s, dst := %s, inPlace := %s, args := [%s], scalarByRef := %s }" % (
-        lo, himinus or 0, dst, "true" if inplace else "false", ", ".join(args), "true" if by_ref else "false")
+def loop_term(lo, himinus, dst, inplace, args, by_ref=False, scalar_ty="none"):
+    return "{ lo := %s, hiMinus := %s, dst := %s, inPlace := %s, args := [%s], scalarByRef := %s, scalarTy := .%s }" % (
+        lo, himinus or 0, dst, "true" if inplace else "false", ", ".join(args), "true" if by_ref else "false", scalar_ty)
 
 
 def parse_statement(stmt, var, sym, vec_names, scalar_names):
@@ -179,6 +179,11 @@ def sig_operands(sig):
     params = split_args(m.group(1), angle=True) if m else []
     vecs, scalars = [], []
     sig_operands.by_reference = []
+    sig_operands.scalar_types = {}
+    # template parameters that are types (`class U`, `typename U`): a scalar parameter declared with such a name keeps
+    # the type of the argument (the usual arithmetic conversions then happen inside every lane); a parameter declared
+    # `Simd::Scalar<T>` / `Simd::Mask<T>` makes the call convert the argument to the lanes' scalar / mask type first
+    free_types = set(re.findall(r"\b(?:class|typename)\s+([A-Za-z_]\w*)", sig))
     for p in params:
         p = p.strip()
         if not p or p.startswith("ADLTag") or p == "int":
@@ -190,6 +195,17 @@ def sig_operands(sig):
             scalars.append(name)
             if "&" in p:
                 sig_operands.by_reference.append(name)
+            ty = nospace(re.sub(r"\b%s\s*$" % re.escape(name), "", p))
+            ty = re.sub(r"^const", "", ty).rstrip("&")
+            ty = re.sub(r"const$", "", ty)
+            if ty == "Simd::Scalar<T>":
+                sig_operands.scalar_types[name] = "laneScalar"
+            elif ty == "Simd::Mask<T>":
+                sig_operands.scalar_types[name] = "laneMask"
+            elif ty in free_types and ty not in ("T", "M"):
+                sig_operands.scalar_types[name] = "own"
+            else:
+                raise TranslateError("scalar parameter %r: declared type %r outside the grammar" % (name, ty))
     return vecs, scalars
 
 
@@ -258,6 +274,13 @@ def translate_loop_hh(src):
             # lane of *this (`v += lane(k, v)`) and then changes under the loop's feet; the mode is part of the shape, the
             # model executes the aliasing semantics accordingly, the theorems need `scalarByRef = false` for in-place loops
             by_ref = bool(sig_operands.by_reference) and ".scalar" in args
+            # declared type of the scalar parameter (decides whether a scalar argument of another arithmetic type is
+            # converted to the lanes' scalar type at the call or keeps its type inside the per-lane statement)
+            scalar_ty = "none"
+            if ".scalar" in args:
+                if len(scalars) != 1:
+                    raise TranslateError("%s: more than one scalar parameter" % name)
+                scalar_ty = sig_operands.scalar_types[scalars[0]]
             # whatever else the overload does must be the declaration of `out`, the pragma and the return
             rest = nospace(FOR_RE.sub("", fbody))
             rest = rest.replace("DUNE_PRAGMA_OMP_SIMD", "")
@@ -272,7 +295,7 @@ def translate_loop_hh(src):
             k = seen.get(f, 0)
             seen[f] = k + 1
             lname = "loop_%s_%s%s" % (short, f, "" if k == 0 else str(k + 1))
-            loops[lname] = loop_term(lo, himinus, dst, inplace, args, by_ref)
+            loops[lname] = loop_term(lo, himinus, dst, inplace, args, by_ref, scalar_ty)
         if not seen:
             raise TranslateError("%s: no per-lane loop found" % name)
 
@@ -567,8 +590,15 @@ def translate(repo):
          "  | vec (which : Nat) (ix : Ix) | scalar",
          "  deriving DecidableEq, Repr",
          "",
+         "/-- declared type of the scalar parameter of an overload: `Simd::Scalar<T>` (`laneScalar`: the call converts the",
+         "    argument to the lanes' scalar type), `Simd::Mask<T>` (`laneMask`: converted to the mask type of an entry), a free",
+         "    template parameter (`own`: the argument keeps its type, every lane applies the built-in mixed-type operation) -/",
+         "inductive ScalarParam where",
+         "  | none | laneScalar | laneMask | own",
+         "  deriving DecidableEq, Repr",
+         "",
          "/-- `for (i = lo; i < S - hiMinus; i++) dst[dst] = OP(args...)`; `inPlace`: the destination is `*this`;",
-         "    `scalarByRef`: how the scalar operand (if any) is passed -/",
+         "    `scalarByRef`: how the scalar operand (if any) is passed; `scalarTy`: its declared type -/",
          "structure Loop where",
          "  lo : Nat",
          "  hiMinus : Nat",
@@ -577,6 +607,7 @@ def translate(repo):
          "  args : List Opd",
          "  /-- the scalar parameter is taken by reference (`const Scalar<T>&`) instead of by value -/",
          "  scalarByRef : Bool",
+         "  scalarTy : ScalarParam",
          "  deriving DecidableEq, Repr",
          "",
          "inductive RedKind where",
